@@ -282,8 +282,11 @@ def r3(R3, cfg, F):
         okc = rev[0].dest['l'] == 0 and ib.access_path(rev[0].args[0]) == ['call@bb%d' % ii[0].bb]
     elif okc:
         okc = ii[0].dest['l'] == 0
-    ag = [s for _, _, s in ts.assigns() if s['place']['l'] == 0 and s['rv']['k'] == 'aggregate' and s['rv'].get('adt') == D + 'TopologicalSort']
-    okp = len(ag) == 1
+    # (the value may be built by a helper written in place and reach _0 through its return slot)
+    ags = [(bb_, j_, s) for bb_, j_, s in ts.assigns() if s['rv']['k'] == 'aggregate' and s['rv'].get('adt') == D + 'TopologicalSort' and not ts.blocks[bb_]['cleanup']]
+    ret_roots = ts.origins(0)
+    ag = [s for bb_, j_, s in ags if s['place']['l'] == 0 or ('agg', bb_, j_) in ret_roots]
+    okp = len(ag) == 1 and len(ags) == 1
     revp = [c for c in ts.calls() if c.callee and re.search(r'(slice::<impl \[T\]>|Vec::<T.*>)::reverse$', c.callee.best)]
     if okp:
         lp = common.deep_path(ts, ag[0]['rv']['ops'][0]) or []
